@@ -189,6 +189,53 @@ def gen_input(rng, kind, size):
             k = rng.choice(["zeros", "rle", "random", "period", "text", "lowent"])
             out += gen_input(rng, k, rng.choice([1, 7, 100, 1000, 8192, 20000]))
         return bytes(out[:size])
+    if kind == "debruijn":   # every 4-gram unique over a 16-letter alphabet: no match of length >= 4 exists, but 4 bits/byte for Huffman
+        k, n = 16, 4
+        a = [0] * (k * n)
+        seq = []
+
+        def db(t, p_):
+            if len(seq) > size + 8:
+                return
+            if t > n:
+                if n % p_ == 0:
+                    seq.extend(a[1:p_ + 1])
+            else:
+                a[t] = a[t - p_]
+                db(t + 1, p_)
+                for j in range(a[t - p_] + 1, k):
+                    a[t] = j
+                    db(t + 1, t)
+        import sys
+        sys.setrecursionlimit(10000)
+        db(1, 1)
+        alpha = bytes(rng.sample(range(256), 16))
+        out = bytes(alpha[c] for c in seq)
+        while len(out) < size:
+            out += out
+        return out[:size]
+    if kind == "splitraw":   # text | noise with sparse copies (last 2 KB: fixed distances) | dense copies at the same distances | text
+        D = [257, 1031, 389]
+        out = bytearray(gen_input(rng, "text", size))
+
+        def noisy(off, n, gap, mlen, fixed_all):
+            i = 0
+            while i < n:
+                g = gap // 2 + rng.randrange(gap)
+                seg = rng.randbytes(min(g, n - i))
+                out[off + i:off + i + len(seg)] = seg
+                i += len(seg)
+                if i + mlen + 8 < n and off + i > 2000:
+                    fx = fixed_all or i + 2000 > n
+                    ml = 6 if (fx and mlen < 6) else mlen
+                    d = rng.choice(D) if fx else 100 + rng.randrange(1500)
+                    for j in range(ml):
+                        out[off + i + j] = out[off + i + j - d]
+                    i += ml
+        if size >= 200000:
+            noisy(80000, 131072 - 80000, 200, 3, False)
+            noisy(131072, 60000, 24, 40, True)
+        return bytes(out[:size])
     if kind == "longlen":    # a literal run or a match longer than 65535 at the head, then compressible data whose statistics change
         raw = min(size, rng.choice([65536, 66000, 70000, 90000]))
         if rng.random() < 0.5:
